@@ -452,6 +452,15 @@ def drive(rep, tier, seed, wd):
     for b in bss:
         add(["bb := " + L.bytes_lit(b), "hex_encode(bb)", "hex_decode(hex_encode(bb))", "base64_encode(bb)", "base64_decode(base64_encode(bb))",
              "utf8_decode(bb)", "utf8_encode(utf8_decode(bb))", "decompress(compress(bb))"], {"ev": "bytes", "b": b})
+    # bulk payloads: pseudo-random (incompressible) / repetitive bytes of 5 kB .. 200 kB built inside the
+    # interpreter - block boundaries of the codecs' buffers; only [round trip equals payload, length] is logged
+    for n_, mul in ([(5000, 75), (40000, 75), (70000, 1), (100000, 75)] if q else
+                    [(5000, 75), (33000, 75), (40000, 1), (66000, 75), (100000, 75), (131072, 75), (200000, 75), (200000, 1)]):
+        gen = ("bb := (xx := %d; bytes(for (ii <- 1 to %d) yield (xx = (xx * %d + 74) %% 65537; xx %% %d)))"
+               % (rng.randrange(1, 60000), n_, mul, 256 if mul != 1 else 7))
+        pair = lambda enc, dec: "(\\rr -> [(if (rr == bb) 1 else 0), len(rr)])(%s(%s(bb)))" % (dec, enc)
+        add([gen, "len(bb)", pair("hex_encode", "hex_decode"), pair("base64_encode", "base64_decode"), pair("compress", "decompress")],
+            {"ev": "bulk", "n": n_})
     # decoding of arbitrary text
     for _ in range(300 if q else 2500):
         k = rng.choice([0, 1, 2, 3, 4, 6, 8, 20])
@@ -536,6 +545,14 @@ def drive(rep, tier, seed, wd):
             infos.append({"m": m, "srcs": srcs, "sts": sts, "cls": "bytes",
                           "idx": {"hex_encode": 1, "hex_decode(hex_encode)": 2, "base64_encode": 3, "base64_decode(base64_encode)": 4,
                                   "utf8_decode": 5, "utf8_encode(utf8_decode)": 6, "decompress(compress)": 7}})
+        elif k == "bulk":
+            pr = lambda st: [int(x["v"]) for x in st["v"]["v"]] if st.get("o") == "ok" and st.get("v", {}).get("t") == "list" else [0, -1]
+            if not (sts[1].get("o") == "ok" and sts[1]["v"].get("v") == str(m["n"])):
+                nv.tool_fail("bulk payload was not built: %s" % json.dumps(sts[:2])[:300])
+            events.append({"ev": "bulk", "n": m["n"], "hex": pr(sts[2]), "b64": pr(sts[3]), "gz": pr(sts[4])})
+            infos.append({"m": m, "srcs": srcs, "sts": sts, "cls": "bulk",
+                          "idx": {"bulk hex_decode(hex_encode)": 2, "bulk base64_decode(base64_encode)": 3,
+                                  "bulk decompress(compress)": 4}})
         elif k in ("hexdec", "b64dec"):
             events.append({"ev": k, "s": cps(m["s"]), "r": L.obs_bytes(sts[0])})
             infos.append({"m": m, "srcs": srcs, "sts": sts, "cls": "text", "idx": {}})
